@@ -959,3 +959,47 @@ Lemma csv_complex_alone_witness :
      = Ok {| ab_id := Some (lit "X"); ab_data := [(lit "s", lit "D0")]; ab_target := Some (BComplex KMulti []) |}
   /\ csv_row false (row "X" "D0" "s" "MultiSelector" "a;b" "" "" "" "" "" "") = Err.
 Proof. vm_compute. repeat split. Qed.
+
+(* ------------------------------------------------------------------ *)
+(* a data set defined more than once                                   *)
+
+Lemma has_id_app i l m : has_id i (l ++ m) = has_id i l || has_id i m.
+Proof. unfold has_id. apply existsb_app. Qed.
+
+Lemma has_id_in i k l : In (i, k) l -> has_id i l = true.
+Proof.
+  intro H. unfold has_id. apply existsb_exists. exists (i, k). split; [exact H|]. apply N.eqb_refl.
+Qed.
+
+(* ids of the second definition are distinct *)
+Definition distinct_ids (l : list (N * N)) : Prop := NoDup (map fst l).
+
+Lemma merge_data_spec other : forall mine i k, distinct_ids other ->
+  In (i, k) (merge_data mine other) <-> In (i, k) mine \/ (has_id i mine = false /\ In (i, k) other).
+Proof.
+  induction other as [|d o IH]; intros mine i k Hnd.
+  - cbn. split; [intro H; left; exact H|intros [H|[_ []]]; exact H].
+  - inversion Hnd as [|? ? Hnotin Hnd']; subst. cbn [merge_data].
+    rewrite IH by exact Hnd'. destruct d as [j kj]. cbn [fst] in *.
+    destruct (has_id j mine) eqn:Ej.
+    + split.
+      * intros [H|[Hn H]]; [left; exact H|right; split; [exact Hn|right; exact H]].
+      * intros [H|[Hn [H|H]]]; [left; exact H| |right; split; [exact Hn|exact H]].
+        injection H as -> ->. rewrite Ej in Hn. discriminate.
+    + split.
+      * intros [H|[Hn H]].
+        -- apply in_app_or in H. destruct H as [H|[H|[]]]; [left; exact H|].
+           injection H as -> ->. right. split; [exact Ej|left; reflexivity].
+        -- rewrite has_id_app in Hn. apply orb_false_elim in Hn. destruct Hn as [Hn _].
+           right. split; [exact Hn|right; exact H].
+      * intros [H|[Hn [H|H]]].
+        -- left. apply in_or_app. left. exact H.
+        -- injection H as -> ->. left. apply in_or_app. right. left. reflexivity.
+        -- right. split; [|exact H]. rewrite has_id_app, Hn. cbn [has_id existsb fst orb].
+           destruct (N.eqb_spec j i) as [->|_]; [|reflexivity].
+           exfalso. apply Hnotin. change i with (fst (i, k)). apply in_map. exact H.
+Qed.
+
+Lemma ds_merge_spec a b i k : distinct_ids (ds_data b) ->
+  In (i, k) (ds_data (ds_merge a b)) <-> spec_merged a b i k.
+Proof. intro H. unfold ds_merge, spec_merged. cbn [ds_data]. apply merge_data_spec. exact H. Qed.
